@@ -36,6 +36,15 @@ theorem consts_match_model_negotiateFlags (domain workstation : Bytes) (unicode 
 '''
 out+=restate('C08','createNegotiate','(upper utf16 : Bytes → Bytes) (domain workstation : Bytes) (unicode : Bool)','upper utf16 domain workstation unicode',[('putLe32 1','putLe32 ('+U32('msgNegotiate')+')'),('d.length 40','d.length '+G+'neg_headerSize'),('(40 +','('+G+'neg_headerSize +')],doc='`CreateNegotiateMessage`: message type 1 and the 40-byte header after which the payload starts')+'\n'
 out+=restate('C08','createAuthenticate','(upper utf16 : Bytes → Bytes) (flags : UInt32) (lm nt : Bytes) (user domain workstation : Bytes)','upper utf16 flags lm nt user domain workstation',[('lmOff := 88','lmOff := '+G+'auth_headerSize'),('putLe32 3','putLe32 ('+U32('msgAuthenticate')+')'),('zeros 8','zeros '+G+'auth_zeroVersion'),('zeros 16','zeros '+G+'auth_mic')],doc='`CreateAuthenticateMessage`: message type 3, the 88-byte header, 8 zero bytes for an absent version, the 16-byte MIC')+'\n'
+out+=restate('C08','createNegotiateMessage','(upper utf16 : Bytes → Bytes) (domain workstation : Bytes) (unicode : Bool)','upper utf16 domain workstation unicode',[('> 65535','> '+G+'neg_maxDomain'),('> 65535','> '+G+'neg_maxWorkstation')],doc='`CreateNegotiateMessage`: the length guard in front of the writes (a descriptor length is a 16-bit number)')+'\n'
+out+=restate('C08','createAuthenticateMessage','(upper utf16 : Bytes → Bytes) (flags : UInt32) (lm nt : Bytes) (user domain workstation : Bytes)','upper utf16 flags lm nt user domain workstation',[('> 65535','> '+G+'auth_maxField')],doc='`CreateAuthenticateMessage`: the length guard over the five payload fields')+'\n'
+out+='''/-- the shape of the two length guards: which lengths are compared, and that the AUTHENTICATE guard ranges over exactly
+    the five fields the model lists, in the model's order -/
+theorem consts_match_model_length_guards :
+    ConstsC08.neg_lengthGuard_shape = "(|| (> (len domainBytes) 65535) (> (len workstationBytes) 65535))"
+      ∧ ConstsC08.auth_guardedFields = ["lmResponse", "ntResponse", "domainBytes", "usernameBytes", "workstationBytes"] := ⟨rfl, rfl⟩
+
+'''
 out+='''/-- the order and widths of everything the two builders write, and how the payload offsets follow one another -/
 theorem consts_match_model_message_orders :
     ConstsC08.neg_puts
